@@ -176,11 +176,24 @@ C13W(cfg, o, o1) ==
              \cup {W("C13.order", r, b, "", s, "age") : <<r, s>> \in {p \in removed \X after : Cls(o1.snap[p[1]]) = Cls(o1.snap[p[2]]) /\ p[1] > p[2]}}
         : b \in DOMAIN o1.hist }
 
+KidCountSnap(snap, e) == \* how many times e is recorded as a child, over all results of all events
+  LET RECURSIVE Cnt(_)
+      Cnt(q) == IF q = <<>> THEN 0 ELSE (IF Head(q) = e THEN 1 ELSE 0) + Cnt(Tail(q))
+      RECURSIVE Sum(_, _)
+      Sum(sn, i) == IF i > Len(sn.res) THEN 0 ELSE Cnt(sn.res[i].kids) + Sum(sn, i + 1)
+      RECURSIVE All(_)
+      All(x) == IF x > Len(snap) THEN 0 ELSE Sum(snap[x], 1) + All(x + 1)
+  IN All(1)
 \* C09: structural lineage facts that must hold in every observed state
-C09StructW(o1, changed) ==
-  UNION { LET s == o1.snap[e] IN
+C09StructW(o, o1, changed) ==
+  UNION { LET s == o1.snap[e]
+              allKids == UNION {Range(s.res[i].kids) : i \in DOMAIN s.res} IN
           (IF s.par = e THEN {W("C09.self_parent", e, "", "", 0, "")} ELSE {})
           \cup (IF \E i \in DOMAIN s.res : InSeq(e, s.res[i].kids) THEN {W("C09.self_child", e, "", "", 0, "")} ELSE {})
+          \* the parent pointer is fixed by the first dispatch: it never changes afterwards (a forward or re-dispatch must not re-parent)
+          \cup (IF e <= Len(o.snap) /\ o.snap[e].par # s.par THEN {W("C09.parent_changed", e, "", "", s.par, "")} ELSE {})
+          \* an event is recorded as a child at most once over all handler results of all events
+          \cup {W("C09.child_twice", c, "", "", e, "") : c \in {k \in allKids : k # 0 /\ KidCountSnap(o1.snap, k) > 1}}
         : e \in changed }
 
 \* C10: when a handler's result becomes TimeoutError, no result of any descendant of its event is left pending
@@ -202,7 +215,7 @@ AfterEvery(cfg, o, o1, ln) ==
       \* C08 / C03: an event is signalled complete although no bus has begun to process it yet (its handlers are still to come)
       premature == {W("C08.premature", e, "", "", 0, "") :
                       e \in {x \in 1..Len(o1.snap) : fc1[x] # <<>> /\ (x > Len(o.fc) \/ o.fc[x] = <<>>) /\ ~\E p \in o1.procB : p[2] = x}}
-  IN AddW(o3, C08W(o, o2) \cup C13W(cfg, o, o2) \cup C09StructW(o2, changed) \cup C10ChildW(o, o2) \cup premature)
+  IN AddW(o3, C08W(o, o2) \cup C13W(cfg, o, o2) \cup C09StructW(o, o2, changed) \cup C10ChildW(o, o2) \cup premature)
 
 \* ------------------------------------------------------------------------
 \* Disp
@@ -321,7 +334,9 @@ StepExit(cfg, o, ln) ==
                  \* an enclosing activation (one that was awaiting when this one started and is still open) with a deadline not later
                  encdl |-> \E y \in o.open : y.act \in x.enc /\ y.dl >= 0 /\ y.dl <= ln.t]
            o1 == [o EXCEPT !.open = @ \ {x}, !.racts = @ \cup {r}]
-           w == IF ln.out # "cancel" THEN LateW(o, ln.act, ln.t, "exit") ELSE {}
+           w == (IF ln.out # "cancel" THEN LateW(o, ln.act, ln.t, "exit") ELSE {})
+                \* C04: the handler ends with an exception while its `await child` is still pending: the await itself raised
+                \cup (IF ln.out = "raise" /\ x.aw # 0 THEN {W("C04.raised", x.aw, x.b, x.h, x.act, "")} ELSE {})
        IN AddW(IF ln.out = "raise" THEN Bump(o1, "raise") ELSE IF ln.out = "cancel" THEN Bump(o1, "timeout") ELSE o1, w)
 
 StepOp(cfg, o, ln) == AddW(o, LateW(o, ln.act, ln.t, "op"))
